@@ -67,7 +67,9 @@ def main(pid):
         if cl.startswith("C14"):
             bad = [e for e in cobs[ix]["events"] if e["raised"] or not e["same"]][:2]
             vd.violation(cl, {"behaviour": behs[ix], "events": cobs[ix]["events"]},
-                         {"clause": cl, "after": next((behs[ix][k - 1] for k, e in enumerate(cobs[ix]["events"]) if (e["raised"] or not e["same"]) and k > 0), "")})
+                         {"clause": cl, "after": next((behs[ix][k - 1] for k, e in enumerate(cobs[ix]["events"]) if (e["raised"] or not e["same"]) and k > 0), "")},
+                         judge=vlib.J("Trace_Hs", "Trace_Hs.cfg", cobs[ix]),
+                         rerun=vlib.R("drv_hs", "run_cache", behs[ix], common={"seed": vlib.seed()}))
     for ix, _ in drifts:
         vd.spec_drift("HsCache", f"hyperscan.loadb outcome differs from the model's Load: {[(e['ev'], e['load']) for e in cobs[ix]['events'] if e['load']]}")
     ev.sample({"cache_behaviour": behs[len(behs) // 2]})
@@ -87,7 +89,9 @@ def main(pid):
             o = obs[ix]
             vd.violation(cl, {"text": o["text"], "missing": sorted(set(o["ref"]) - set(o["hs"]))[:5],
                               "extra": sorted(set(o["hs"]) - set(o["ref"]))[:5], "extra_genuine": o["extra_genuine"][:5],
-                              "cit_equal": o["cit_equal"]}, {"clause": cl})
+                              "cit_equal": o["cit_equal"]}, {"clause": cl},
+                         judge=vlib.J("Trace_Hs", "Trace_Hs.cfg", o),
+                         rerun=vlib.R("drv_hs", "run_cands", {"text": tx[ix]}, hs_cache=True, fields=[k for k in o if k != "kind"]))
     ev.sample({"text": obs[0]["text"], "candidates": len(obs[0]["hs"])})
     ev.cov["traces_validated_against_impl"] = len(obs) + len(cobs)
     ev.cov["evaluations"] = len(obs) + len(cobs)
